@@ -12,7 +12,7 @@ ASSUMPTIONS = [
     'comments are never coalesced',
     'one representative per character class / name pool, rotated by VERIF_SEED',
 ]
-EXTRA = ('neigh', 'char')
+EXTRA = ('neigh', 'char', 'args')
 
 
 def check_doc(acc, src, items):
